@@ -161,3 +161,10 @@ package font
 //@   ensures [transparent-value] implies(result1, result0.XBearing == rawExtX(f.Font, f.coords, f.xPpem, f.yPpem, glyph) && result0.YBearing == rawExtY(f.Font, f.coords, f.xPpem, f.yPpem, glyph) && result0.Width == rawExtW(f.Font, f.coords, f.xPpem, f.yPpem, glyph) && result0.Height == rawExtH(f.Font, f.coords, f.xPpem, f.yPpem, glyph))
 //@   ensures [cache-ok] cacheOK(f)
 //@   modifies f.extentsCache[:]
+//
+// loadHVtmx (C09): the counts handed to the generated hmtx/vmtx parser, which allocates with them, are never negative,
+// whatever hhea/vhea and maxp announce.
+//@ func loadHVtmx C09c
+//@   mode int
+//@   assert_at call ParseHmtx#1 : [non-negative-counts] leftSideBearingsCount >= 0 && int(hhea.NumOfLongMetrics) >= 0
+//@   modifies unspecified
